@@ -270,6 +270,8 @@ impl LogStore for FileLogStore {
                 inner.entries.insert(entry.index, entry.clone());
                 inner.index_end_pos.insert(entry.index, end_pos);
                 max_index = max_index.max(entry.index);
+                #[cfg(feature = "__verif")]
+                d_engine_core::verif_hooks::crash_point("log.persist.after_entry_write");
             }
             inner.file.flush()?;
         }
@@ -308,6 +310,8 @@ impl LogStore for FileLogStore {
 
         // Rewrite file with only kept entries, flush once.
         inner.file.set_len(0)?;
+        #[cfg(feature = "__verif")]
+        d_engine_core::verif_hooks::crash_point("log.purge.after_set_len");
         inner.file.seek(SeekFrom::Start(0))?;
         inner.index_end_pos.clear();
 
@@ -315,9 +319,13 @@ impl LogStore for FileLogStore {
             let enc = entry.encode_to_vec();
             let end_pos = inner.write_encoded(&enc)?;
             inner.index_end_pos.insert(entry.index, end_pos);
+            #[cfg(feature = "__verif")]
+            d_engine_core::verif_hooks::crash_point("log.purge.after_entry_write");
         }
         inner.file.flush()?;
         inner.file.sync_all()?;
+        #[cfg(feature = "__verif")]
+        d_engine_core::verif_hooks::crash_point("log.purge.after_sync");
 
         inner.entries.retain(|&index, _| index > cutoff_index.index);
 
@@ -359,6 +367,8 @@ impl LogStore for FileLogStore {
             // Truncate file to the end of the last kept entry.
             let truncate_to = inner.end_pos_before(from_index);
             inner.file.set_len(truncate_to)?;
+            #[cfg(feature = "__verif")]
+            d_engine_core::verif_hooks::crash_point("log.replace.after_set_len");
 
             // Remove in-memory state for truncated range.
             inner.remove_from_index(from_index);
@@ -368,6 +378,8 @@ impl LogStore for FileLogStore {
                 let end_pos = inner.write_encoded(enc)?;
                 inner.entries.insert(entry.index, entry.clone());
                 inner.index_end_pos.insert(entry.index, end_pos);
+                #[cfg(feature = "__verif")]
+                d_engine_core::verif_hooks::crash_point("log.replace.after_entry_write");
             }
 
             if !new_entries.is_empty() {
@@ -471,8 +483,14 @@ impl FileMetaStore {
         if key == HARD_STATE_KEY {
             let hard_state_path = self.data_dir.join(HARD_STATE_FILE_NAME);
             let mut file = File::create(hard_state_path)?;
+            #[cfg(feature = "__verif")]
+            d_engine_core::verif_hooks::crash_point("meta.save.after_create");
             file.write_all(value)?;
+            #[cfg(feature = "__verif")]
+            d_engine_core::verif_hooks::crash_point("meta.save.after_write");
             file.flush()?;
+            #[cfg(feature = "__verif")]
+            d_engine_core::verif_hooks::crash_point("meta.save.after_flush");
         }
 
         Ok(())
